@@ -1,10 +1,32 @@
 #!/usr/bin/env python3
-"""setup_cmd: offline self-test of the machinery (nothing to build or install)."""
+"""setup_cmd: offline self-test of the machinery (nothing to build or install).
+ 1. imports (z3 from the tooling venv, the repo's modules from /repo)
+ 2. model validation: the repo's test-suite on the environment model + differential op sequences vs the real OS
+ 3. vacuity twins: a check whose obligation is replaced by False must report a VIOLATION that replays on the real OS
+"""
+import os
+import subprocess
 import sys
+
+V = os.path.dirname(os.path.abspath(__file__))
 sys.path.insert(0, '/repo')
-sys.path.insert(0, '/verif')
+sys.path.insert(0, V)
 import z3
 print('z3', z3.get_version_string())
-import symx.engine, symx.proxies, symx.fs, symx.env, symx.bind, symx.concrete
+import symx.engine, symx.proxies, symx.fs, symx.env, symx.bind, symx.concrete, symx.sched
 import file_builder
-print('selftest ok')
+r = subprocess.run([sys.executable, os.path.join(V, 'tools', 'model_validation.py')])
+if r.returncode != 0:
+    print('selftest: model validation failed')
+    sys.exit(3)
+ok = True
+for prop, chk, fams in (('C13', 'C13.input', 'input'), ('C18', 'C18.symmetric', 'triple,pair'), ('C09', 'C09.return-values', 'same-dir')):
+    env = dict(os.environ, VERIF_TWIN=chk, VERIF_FAMILIES=fams, VERIF_BUDGET_S='20', VERIF_EVIDENCE_DIR='/tmp/verif_selftest_evidence')
+    p = subprocess.run([sys.executable, os.path.join(V, 'check.py'), prop, '--tier', 'quick'], capture_output=True, text=True, env=env)
+    hit = 'VIOLATION property=%s' % prop in p.stdout
+    print('twin %-22s -> exit %d, violation reported and replayed on the real OS: %s' % (chk, p.returncode, hit))
+    ok = ok and hit and p.returncode == 1
+import shutil
+shutil.rmtree('/tmp/verif_selftest_evidence', ignore_errors=True)
+print('selftest ok' if ok else 'selftest FAILED')
+sys.exit(0 if ok else 3)
